@@ -36,7 +36,7 @@ MEMBERS = {
     'uniform': [()],
     'beta': [(a, b) for a in (0.5, 1.0, 2.0, 5.0) for b in (0.5, 1.0, 3.0)],
     'gamma': [(a,) for a in (0.5, 1.0, 2.0, 5.0, 20.0)],
-    'student_t': [(d,) for d in (2.0, 3.0, 5.0, 10.0, 30.0)],
+    'student_t': [(d,) for d in (1.3, 2.0, 3.0, 5.0, 10.0, 30.0)],
     'loglaplace': [(c,) for c in (1.5, 2.0, 3.0, 5.0, 10.0)],
     'truncated': [(-1.0, 1.0), (-2.0, 0.5), (0.0, 3.0)],
 }
@@ -72,10 +72,13 @@ def cases(tier, seed):
             for ss in (None, 5, 20):
                 if weighted and ss:
                     continue
-                for shape in ('normal', 'gamma2', 'bimodal'):
+                for shape in ('normal', 'gamma2', 'bimodal', 'ties'):
                     for ls in ((0.0, 1.0), (5.0, 1e-3), (1e6, 1.0)):
                         for n in (6, 50, 200):
                             out.append(('kde', bw, weighted, ss, (shape, ls[0], ls[1], n)))
+    # a long column in a periodic order (lower half / upper half alternating): every row is a kernel centre
+    for bw in (None, 0.3):
+        out.append(('kde', bw, False, None, ('alternating', 0.0, 1.0, 4501)))
     return out
 
 
